@@ -4,6 +4,7 @@ import (
 	"fmt"
 	"go/constant"
 	"go/token"
+	"go/types"
 	"strings"
 
 	"ddcheck/core"
@@ -197,4 +198,64 @@ func sameSSAValue(a, b ssa.Value, depth int) bool {
 		}
 	}
 	return true
+}
+
+// checkEntryNilParams (C01-T12): "for every parsed node tree handed to the distiller ... returns
+// either an error or a result": the pointer parameters of the entry points are the one place
+// where a nil comes from outside. A direct dereference of such a parameter (field access, load)
+// must be unreachable once the edges on which the parameter is known to be non-nil are removed.
+func checkEntryNilParams(p *core.Program, r *core.Report, rule string) {
+	n := 0
+	for _, fn := range p.EntryPoints() {
+		for _, par := range fn.Params {
+			if _, ok := par.Type().Underlying().(*types.Pointer); !ok {
+				continue
+			}
+			var derefs []ssa.Instruction
+			for _, ref := range *par.Referrers() {
+				switch x := ref.(type) {
+				case *ssa.FieldAddr:
+					if x.X == par {
+						derefs = append(derefs, x)
+					}
+				case *ssa.UnOp:
+					if x.Op == token.MUL && x.X == par {
+						derefs = append(derefs, x)
+					}
+				}
+			}
+			cut := core.EdgeSet{}
+			for _, b := range fn.Blocks {
+				if len(b.Instrs) == 0 {
+					continue
+				}
+				ifi, ok := b.Instrs[len(b.Instrs)-1].(*ssa.If)
+				if !ok {
+					continue
+				}
+				bo, ok := ifi.Cond.(*ssa.BinOp)
+				if !ok || !(bo.X == ssa.Value(par) && core.IsNilConst(bo.Y) || bo.Y == ssa.Value(par) && core.IsNilConst(bo.X)) {
+					continue
+				}
+				switch bo.Op {
+				case token.EQL:
+					cut[core.Edge{From: b, K: 1}] = true // != nil on the false edge
+				case token.NEQ:
+					cut[core.Edge{From: b, K: 0}] = true
+				}
+			}
+			n++
+			bad := ""
+			for _, d := range derefs {
+				if core.InstrReachable(fn, cut, d) {
+					bad = p.Pos(d.Pos())
+					break
+				}
+			}
+			r.Add(rule, fmt.Sprintf("%s: parameter %s is dereferenced only where it is known not to be nil", core.ShortKey(fn), par.Name()), p.Pos(fn.Pos()), bad == "",
+				fmt.Sprintf("%d direct dereferences; unguarded: %s", len(derefs), bad))
+		}
+	}
+	r.Floor(rule, 4)
+	_ = n
 }
